@@ -28,6 +28,9 @@ VerdictModel(r) ==
      ELSE IF Cardinality(ToSet(r.choices)) > 1 THEN "vendor-depends-on-registration-order"
      ELSE IF ~Unambiguous(r.cands) THEN "vendor-tie-between-equally-specific-matches"
      ELSE IF r.cands # <<>> /\ ToSet(r.choices) # Best(r.cands) THEN "less-specific-vendor-chosen"
+     \* models of the menu of real product names: the family each of them belongs to is an input (a fact about the devices)
+     ELSE IF r.family # "" /\ ToSet(r.choices) # {r.family} THEN "known-model-resolves-to-another-vendor"
+     ELSE IF r.cands = <<>> /\ ToSet(r.choices) # {"generic"} THEN "vendor-chosen-although-no-expression-matches"
      ELSE "ok"
 VerdictLoad(r) ==
   IF ~r.ok THEN "rulebook-does-not-load"
